@@ -9,8 +9,9 @@ CONSTANTS N1, N2, N3, Edges, Px, Res
 NB == <<N1, N2, N3>>
 MaxN == IF N1 >= N2 /\ N1 >= N3 THEN N1 ELSE IF N2 >= N3 THEN N2 ELSE N3
 Cut == 1 .. (MaxN \div 2)
+Cut0 == 0 .. (MaxN \div 2)          \* the hard-edged filters also at cutoff 0 (only the zero frequency passes)
 
-HardCases   == {q \in {[kind |-> "hard", n |-> NB, rl |-> a, rh |-> b] : a \in Cut, b \in Cut} : q.rh <= q.rl}
+HardCases   == {q \in {[kind |-> "hard", n |-> NB, rl |-> a, rh |-> b] : a \in Cut0, b \in Cut0} : q.rh <= q.rl}
 SoftCases   == {[kind |-> "soft", n |-> NB, r |-> r, f |-> f] : r \in Cut, f \in 0..16}
 PixelCases  == {[kind |-> "pixels", edge |-> e, px100 |-> p, res100 |-> s] : e \in Edges, p \in Px, s \in Res}
 SmallCases  == HardCases \cup SoftCases \cup PixelCases
